@@ -90,8 +90,8 @@ func runModelCheck(r *simrt.Run, id string, o GenOpts) Outcome {
 	missing, extra := DiffSets(want, got)
 	if len(missing)+len(extra) > 0 {
 		if x, y, ok := HashCollision(wantH, res.Hashes); ok {
-			r.Logf("known hash-conflation domain: %s / %s", x, y)
-			return Outcome{Discard: "known:hash-collision"}
+			// facts with equal hash codes are in play (stores must keep them apart)
+			r.Logf("atoms with equal hash codes: %s / %s", x, y)
 		}
 		cls := id+"/missing-fact"
 		if len(missing) == 0 {
@@ -217,12 +217,10 @@ func runC20(r *simrt.Run, tier Tier) Outcome {
 		return Outcome{Discard: "rejected-by-both"}
 	}
 	setCols := SetColsOf(prog)
+	_, _ = naiveH, semiH
 	naiveFacts, semiFacts = resortSets(naiveFacts, setCols), resortSets(semiFacts, setCols)
 	onlyN, onlyS := DiffSets(naiveFacts, semiFacts)
 	if len(onlyN)+len(onlyS) > 0 {
-		if _, _, ok := HashCollision(naiveH, semiH); ok {
-			return Outcome{Discard: "known:hash-collision"}
-		}
 		// tie-breaker: who is wrong?
 		hint := ""
 		ref := RefEval(prog, refCap)
